@@ -8,7 +8,8 @@ Oracle handlers for the aligner behind phasing (C16; ops of `tools/harness/ops_p
   reference occurs verbatim exactly once ⇒ the alignment is that occurrence" evaluated on the
   **implementation's** result.
 * `phasent1`: model result = `phaseNT` on one sequence; verdict = "trimmed exactly at the ORF's start"
-  under the same premise.  A run-time panic of the model is rendered `exit:2` (the harness process dies).
+  under the same premise; a removed result must carry the untrimmed input.  A run-time panic (none is left
+  in the repaired code on the generated inputs) is rendered `exit:2`: the harness process dies.
 -/
 namespace Gv.Oracle.PhaseAlignOps
 open Gv Gv.Oracle Gv.Model Gv.Model.SW Gv.Model.Phase Gv.Model.PhaseAlign
@@ -26,8 +27,9 @@ def renderAtg (v : Nat) : AtgOutcome → String
 def renderNT (v : Nat) : NTOut → String
   | .ok p _ =>
     match p.aa with
-    | some aa => s!"ok v={v} {p.position}|{encSeq p.nt}|{encSeq p.codon}|{encSeq aa}"
+    | some aa => s!"ok v={v} {p.position}|0|{encSeq p.nt}|{encSeq p.codon}|{encSeq aa}"
     | none => s!"ERR v={v}"
+  | .removed p => s!"ok v={v} {p.position}|1|{encSeq p.nt}|{encSeq p.codon}|{encSeq (p.aa.getD [])}"
   | .err => s!"ERR v={v}"
   | .panic => "exit:2"
 
@@ -114,6 +116,11 @@ def handle : Handler := fun op args impl =>
       -- reference shorter than a codon makes it return an error
       let out := phaseNT c tbl (refs.map (·.2)) seq
       let model := if refs.any (fun r => r.2.length < 3) then s!"err v={v}" else renderNT v out
+      -- "exactly one result per input": a removed result is the input itself, untrimmed
+      let removedOk :=
+        match ((impl.splitOn " ").getD 2 "").splitOn "|" with
+        | [pos, "1", nt, _, _] => verdictOf (pos == "0" && nt == encSeq seq) "removed-result-is-not-the-input"
+        | _ => "na"
       let verdict :=
         if impl.startsWith "panic" || impl.startsWith "exit:" then "fail:worker-panic" else
         match refs with
@@ -128,9 +135,9 @@ def handle : Handler := fun op args impl =>
           if DyadicScheme a ref.2.length seq.length && premise a ref.2 seq && okRev then
             let off := (occurrences ref.2 seq).getD 0 0
             let nt := if c.cutend then ref.2 else seq.drop off
-            verdictOf (impl.startsWith s!"ok v={v} {off}|{encSeq nt}|") "verbatim-orf-not-trimmed-at-its-start"
-          else "na"
-        | _ => "na"
+            verdictOf (impl.startsWith s!"ok v={v} {off}|0|{encSeq nt}|") "verbatim-orf-not-trimmed-at-its-start"
+          else removedOk
+        | _ => removedOk
       some ⟨model, verdict⟩
   | _, _ => none
 
